@@ -28,7 +28,8 @@ theorem decode_of_facts (bs : Bytes) (tbl : Tbl) (raw : Bytes) (ci e n : Nat)
   have hn : ¬ ((n : Int) < 0) := by omega
   have hlen := List.length_pos_iff.mpr htl
   unfold decode
-  simp only [h1, List.drop_zero, h2, h3, h4, Option.getD_some, List.take_length, h5]
+  simp only [h1, List.drop_zero, h2, h3, h4, Option.isSome_some, Option.isNone_some, Bool.and_false,
+    Bool.false_eq_true, if_false, Option.getD_some, List.take_length, h5]
   simp only [List.getLast?_append, List.getLast?_singleton, Option.some_or, Option.getD_some,
     beq_self_eq_true, if_true, List.dropLast_concat, List.length_cons]
   rw [if_neg (by omega)]
